@@ -74,6 +74,7 @@ SLICE = "semantiva/data_processors/data_slicer_factory.py"
 RESOLVERS = "semantiva/registry/builtin_resolvers.py"
 IOF = "semantiva/data_processors/io_operation_factory.py"
 ORCH = "semantiva/execution/orchestrator/orchestrator.py"
+PIPELINE = "semantiva/pipeline/pipeline.py"
 
 
 # ---------------------------------------------------------------------- value tracing
@@ -1328,6 +1329,9 @@ def run(repo: Repo, R: Report) -> None:
     _rule_wrappers_forward_advertised(repo, R)
     _rule_payload_source_adapter(repo, R)
     _rule_write_then_delete(repo, R)
+    _rule_generated_closures(repo, R)
+    _rule_product_order(repo, R)
+    _rule_declaration_not_rewritten(repo, R)
 
 
 # ---------------------------------------------------------------------- D9
@@ -3088,3 +3092,557 @@ def _slicer_result_is_fresh(R: Report, r: str, p: ast.AST, data_p: str, loop: Op
             if not good:
                 why, line = f"`{norm(rn.ast)[:60]}` does not return the collection of the element results", rn.ast.lineno
     R.check(why is None, r, SLICE, qn, "out = <new collection>; ..; return out", f"a slicer does not hand back a collection of its own with the mapped elements: {why}", line)
+
+
+# ---------------------------------------------------------------------- D21 (round 7)
+# A generated processor is a bundle of closures over the variables of the function that generates it (the key a
+# rename:/delete:/template: processor writes, declares and requires; the wrapped class of an adapter).  Python binds
+# such variables when the closure is *called*: what a generated method reads is the last binding made before the
+# generating function returned, not the binding in force where the method was written.
+def _scope_bound(fn: ast.AST) -> Tuple[Set[str], Set[str]]:
+    """(names bound in the scope of function / lambda *fn* itself, names it declares nonlocal / global)."""
+    out: Set[str] = set(_fn_params(fn))
+    free: Set[str] = set()
+    stack: List[ast.AST] = list(fn.body) if isinstance(fn.body, list) else [fn.body]
+    while stack:
+        n = stack.pop()
+        if isinstance(n, (ast.FunctionDef, ast.AsyncFunctionDef, ast.ClassDef)):
+            out.add(n.name)
+            stack.extend(list(n.decorator_list) + (list(n.args.defaults) + [d for d in n.args.kw_defaults if d is not None] if not isinstance(n, ast.ClassDef) else list(n.bases)))
+            continue
+        if isinstance(n, ast.Lambda):
+            continue
+        if isinstance(n, (ast.Nonlocal, ast.Global)):
+            free |= set(n.names)
+        elif isinstance(n, ast.Name) and isinstance(n.ctx, (ast.Store, ast.Del)):
+            out.add(n.id)
+        elif isinstance(n, (ast.Import, ast.ImportFrom)):
+            out |= {(a.asname or a.name).split(".")[0] for a in n.names}
+        elif isinstance(n, ast.ExceptHandler) and n.name:
+            out.add(n.name)
+        stack.extend(ast.iter_child_nodes(n))
+    return out - free, free
+
+
+_RUNS_ITS_CALLABLE = {"sorted", "min", "max", "map", "filter", "any", "all", "next", "sort", "reduce", "sum", "list", "tuple", "dict", "set"}
+
+
+def _called_on_the_spot(lam: ast.Lambda) -> bool:
+    """The lambda is an argument of sorted / min / max / <list>.sort / an eagerly consumed map / filter: it has run
+    by the time the statement is over."""
+    up = parent(lam)
+    if isinstance(up, ast.keyword):
+        up = parent(up)
+    if not isinstance(up, ast.Call) or lam is up.func:
+        return False
+    name = (dotted_name(up.func) or "").split(".")[-1]
+    if name in ("map", "filter"):
+        outer = parent(up)
+        return isinstance(outer, ast.Call) and (dotted_name(outer.func) or "").split(".")[-1] in _RUNS_ITS_CALLABLE
+    return name in ("sorted", "min", "max", "sort", "reduce", "any", "all", "next")
+
+
+def _captured_variables(F: ast.AST) -> Dict[str, List[Tuple[ast.AST, Optional[ast.Name]]]]:
+    """Variables of function *F* read (or declared nonlocal: occurrence None) by a function / lambda / method of a
+    class nested in *F*, at any depth: name -> [(the outermost nested function the read sits in, the read)].
+    Default values, decorators, base classes and class-level statements are evaluated where they stand (early) and
+    do not count."""
+    own, _free = _scope_bound(F)
+    out: Dict[str, List[Tuple[ast.AST, Optional[ast.Name]]]] = {}
+
+    def walk(n: ast.AST, shadow: Set[str], inner: Optional[ast.AST]) -> None:
+        if isinstance(n, ast.Name):
+            if isinstance(n.ctx, ast.Load) and inner is not None and n.id in own and n.id not in shadow:
+                out.setdefault(n.id, []).append((inner, n))
+            return
+        if isinstance(n, (ast.FunctionDef, ast.AsyncFunctionDef, ast.Lambda)):
+            for d in list(n.args.defaults) + [k for k in n.args.kw_defaults if k is not None] + list(getattr(n, "decorator_list", [])):
+                walk(d, shadow, inner)
+            b, nl = _scope_bound(n)
+            if isinstance(n, ast.Lambda) and inner is None and _called_on_the_spot(n):
+                walk(n.body, shadow | b, None)  # key= / predicate of a call that runs it before returning: an early read
+                return
+            top = inner if inner is not None else n
+            for s in (n.body if isinstance(n.body, list) else [n.body]):
+                walk(s, shadow | b, top)
+            for nm in nl:
+                if nm in own and nm not in shadow:
+                    out.setdefault(nm, []).append((top, None))
+            return
+        for ch in ast.iter_child_nodes(n):
+            walk(ch, shadow, inner)
+
+    for s in F.body:
+        walk(s, set(), None)
+    return out
+
+
+def _rule_generated_closures(repo: Repo, R: Report) -> None:
+    r = R.rule("C01-D21-generated-methods-see-the-arguments-the-class-was-generated-for", "the methods of a generated processor read the generating function's variables when they are called, i.e. the last binding made before that function returned: a variable a generated method reads through its closure (the key a rename:/delete:/template: processor writes, declares and requires, the wrapped class, a name collection) is not re-bound after the method was defined, and where it is an argument of the generating function it still holds the argument - otherwise the processor acts on another key / class than the one the shorthand or the node declaration named (declared key and written key change together, so the declared-key check stays satisfied)", 8)
+    for rel in _NODE_PATH_FILES:
+        if not repo.has_module(rel):
+            continue
+        mod = repo.module(rel)
+        for F in [n for n in ast.walk(mod.tree) if isinstance(n, FuncNode)]:
+            cap = _captured_variables(F)
+            if not cap:
+                continue
+            g = CFG(F, may_raise=_no_raise)
+            params = _fn_params(F)
+            qn = qualname_of(F)
+            for nm, occ in sorted(cap.items()):
+                why, line = None, F.lineno
+                at_exit = {d.id: d for d in reaching_defs(g, nm, g.ret_exit)}
+                for inner, read in occ:
+                    if why is not None:
+                        break
+                    who = getattr(inner, "name", "<lambda>")
+                    if read is None:
+                        why, line = f"generated `{who}` re-binds `{nm}` of {F.name} (nonlocal): the variable is shared by every instance and every run of the generated class, so what a node does depends on the calls made before", inner.lineno
+                        break
+                    site = _node_of(g, inner)
+                    if site is None:
+                        continue
+                    here = {d.id for d in reaching_defs(g, nm, site)}
+                    after = g.reach([t for t, _lab in g.succ[site]])
+                    late = [d for i, d in sorted(at_exit.items()) if i not in here and i in after and i != site]
+                    if late:
+                        d = late[0]
+                        why, line = f"`{norm(d.ast)[:70]}` re-binds `{nm}` after generated `{who}` was defined: `{who}` reads `{nm}` when it is called and sees this later value, not the one in force at its `def`" + (f" (the argument `{nm}` the generated class was requested for)" if nm in params else ""), getattr(d.ast, "lineno", F.lineno)
+                    elif nm in params and here and not _is_param(g, ast.Name(id=nm, ctx=ast.Load()), site, nm):
+                        d = next(iter(reaching_defs(g, nm, site)))
+                        why, line = f"`{norm(d.ast)[:70]}` replaces the argument `{nm}` before generated `{who}` captures it: the generated processor acts on a value derived from the argument, not on the key / class it was requested for", getattr(d.ast, "lineno", F.lineno)
+                R.check(why is None, r, rel, qn, f"`{nm}` (" + ("argument" if nm in params else "local") + f") as read by generated {', '.join(sorted({getattr(i, 'name', '<lambda>') for i, _ in occ}))[:60]}", why or "", line)
+
+
+# ---------------------------------------------------------------------- D23 (round 7)
+# `variables:` of a parameter sweep is a mapping: two declarations that differ only in the order the keys were
+# written in are the same declaration.  In a Cartesian product the order of the factors *is* the order of the
+# elements, so the factors have to be taken in an order that is a function of the names (plain `sorted`), and every
+# combination has to be paired with the names in that same order.
+_MAPPING_VIEWS = {"keys", "values", "items"}
+_ORDER_KEEPING = {"list", "tuple", "iter"}
+
+
+def _used_as_mapping(fn: ast.AST, p: str) -> bool:
+    """Parameter *p* of *fn* is a mapping: annotated as one, asked for a view, or indexed by something that is not a
+    number / slice."""
+    for a in list(fn.args.posonlyargs) + list(fn.args.args) + list(fn.args.kwonlyargs):
+        if a.arg == p and a.annotation is not None and re.search(r"\b(Dict|dict|Mapping|MutableMapping|OrderedDict)\b", ast.unparse(a.annotation)):
+            return True
+    for n in ast.walk(fn):
+        if isinstance(n, ast.Attribute) and n.attr in _MAPPING_VIEWS | {"get"} and isinstance(n.value, ast.Name) and n.value.id == p:
+            return True
+        if isinstance(n, ast.Subscript) and isinstance(n.value, ast.Name) and n.value.id == p and not isinstance(n.slice, ast.Slice) and not (isinstance(n.slice, ast.Constant) and isinstance(n.slice.value, int)):
+            return True
+    return False
+
+
+def _order_source(g: CFG, e: ast.AST, use: int, depth: int = 0) -> Set[Tuple[str, str]]:
+    """Where the *order* of the items of sequence expression *e* comes from: ("sorted", ""), ("custom", why),
+    ("written", mapping) = the order the keys of a mapping were written in, ("unknown", text)."""
+    if depth > 10:
+        return {("unknown", ast.unparse(e)[:40])}
+    if isinstance(e, ast.Starred):
+        return _order_source(g, e.value, use, depth + 1)
+    if isinstance(e, ast.Name):
+        vs = _vals(g, e, use)
+        if vs is None:
+            return {("unknown", e.id)}
+        out: Set[Tuple[str, str]] = set()
+        for v, u in vs:
+            if isinstance(v, ast.Name):
+                out.add(("written", v.id) if v.id in _fn_params(g.func) and _used_as_mapping(g.func, v.id) else ("unknown", v.id))
+            else:
+                out |= _order_source(g, v, u, depth + 1)
+        return out
+    if isinstance(e, (ast.ListComp, ast.GeneratorExp, ast.DictComp, ast.SetComp)):
+        if isinstance(e, ast.SetComp):
+            return {("custom", "a set has no defined order")}
+        if len(e.generators) != 1:
+            return {("unknown", ast.unparse(e)[:40])}
+        return _order_source(g, e.generators[0].iter, use, depth + 1)
+    if isinstance(e, ast.Call):
+        fn = dotted_name(e.func) or ""
+        if fn == "sorted" and e.args:
+            extra = [k.arg for k in e.keywords if k.arg in ("key", "reverse") and not (isinstance(k.value, ast.Constant) and k.value.value in (None, False))]
+            return {("custom", f"sorted(.., {extra[0]}=..)")} if extra or any(k.arg is None for k in e.keywords) else {("sorted", "")}
+        if fn == "reversed" and e.args:
+            return {("custom", "reversed(..)")}
+        if fn in ("set", "frozenset"):
+            return {("custom", "a set has no defined order")}
+        if fn in _ORDER_KEEPING and len(e.args) == 1:
+            return _order_source(g, e.args[0], use, depth + 1)
+        if isinstance(e.func, ast.Attribute) and e.func.attr in _MAPPING_VIEWS and not e.args:
+            return {("written", ast.unparse(e.func.value)[:30])}
+    return {("unknown", ast.unparse(e)[:40])}
+
+
+def _same_sequence(g: CFG, a: ast.AST, ua: int, b: ast.AST, ub: int) -> bool:
+    """*a* at *ua* and *b* at *ub* denote the same sequence of names (same bindings, or the same expression over
+    names that are not re-bound in between)."""
+    va, vb = _vals(g, a, ua), _vals(g, b, ub)
+    if not va or not vb:
+        return False
+    if {(id(v), u) for v, u in va} == {(id(v), u) for v, u in vb}:
+        return True
+    if len(va) != 1 or len(vb) != 1 or ast.dump(va[0][0]) != ast.dump(vb[0][0]):
+        return False
+    return all({d.id for d in reaching_defs(g, x.id, va[0][1])} == {d.id for d in reaching_defs(g, x.id, vb[0][1])} for x in ast.walk(va[0][0]) if isinstance(x, ast.Name))
+
+
+def _rule_product_order(repo: Repo, R: Report) -> None:
+    r = R.rule("C01-D23-sweep-elements-do-not-depend-on-the-order-the-variables-were-written-in", "the element sequence a generated sweep produces is a function of the declaration as a mapping: where steps are enumerated as a Cartesian product (the order of the factors is the order of the elements), the factors are taken in plain sorted order of the variable names - not in the order the keys of `variables:` happen to be written in, a custom or reversed order - and every combination is paired with the names in that same order; otherwise element i is computed from another combination and every order-sensitive consumer (slicer, collection, probe result list) sees permuted data", 1)
+    seen = 0
+    # the functions that enumerate a sweep's steps: whatever the sweep factory's module calls (followed through
+    # imports, so a helper moved to a module of its own is still found)
+    smod = repo.module(SWEEP)
+    roots = [(smod, n) for n in ast.walk(smod.tree) if isinstance(n, FuncNode)]
+    reach = repo.call_graph_closure(roots)
+    cands: Dict[int, Tuple[object, ast.AST]] = {id(n): (m, n) for m, n in roots}
+    for m, n, _path in reach.values():
+        if isinstance(n, FuncNode) and m.rel.startswith("semantiva/") and not m.rel.startswith(_STATE_EXEMPT):
+            cands.setdefault(id(n), (m, n))
+    for mod, F0 in cands.values():
+        rel = mod.rel
+        def is_product(c: ast.Call) -> bool:
+            d = dotted_name(c.func) or ""
+            if not d or not any(isinstance(a, ast.Starred) for a in c.args):
+                return False
+            head, _dot, rest = d.partition(".")
+            full = mod.imports.get(head, head) + (("." + rest) if rest else "")
+            return full == "itertools.product"
+        if not any(is_product(c) for c in calls_in(F0)):
+            continue
+        qn = qualname_of(F0)
+        F = nfunc(repo, rel, qn, loops=True) if isinstance(parent(F0), (ast.Module, ast.ClassDef)) else F0
+        g = CFG(F, may_raise=_no_raise)
+        for c in [c for c in calls_in(F) if is_product(c)]:
+            use = _node_of(g, c)
+            if use is None:
+                continue
+            seen += 1
+            stars = [a for a in c.args if isinstance(a, ast.Starred)]
+            src = _order_source(g, stars[0], use) if len(c.args) == 1 else {("unknown", "several factor groups")}
+            kinds = {k for k, _w in src}
+            if kinds == {"unknown"}:
+                raise AnalysisError(f"{qn}: the order of the factors of `{norm(c)[:60]}` cannot be told ({sorted(src)[0][1]})")
+            bad = sorted((k, w) for k, w in src if k != "sorted")
+            why = ""
+            if bad:
+                k, w = bad[0]
+                why = (f"the factors of `{norm(c)[:60]}` are taken in the order the keys of `{w}` were written in" if k == "written" else f"the factors of `{norm(c)[:60]}` are taken in a non-canonical order ({w})" if k == "custom" else f"the order of the factors of `{norm(c)[:60]}` is not always the sorted one (`{w}`)") + ": with the variables declared as {b: .., a: ..} the sweep enumerates (b, a)-major instead of (a, b)-major - the same set of elements in another order, so element i of the produced collection / probe result list belongs to another combination and two declarations that are equal as mappings give different payloads"
+            R.check(not bad, r, rel, qn, "itertools.product over the sequences in sorted(variable names) order", why, c.lineno)
+            # pairing: zip(<names>, <combination>) inside the loop over the product
+            lp = next((a for a in ancestors(c) if isinstance(a, (ast.For, ast.comprehension))), None)
+            gen_src = None
+            sv = _vals(g, stars[0].value, use) if len(c.args) == 1 else None
+            if sv and len(sv) == 1 and isinstance(sv[0][0], (ast.ListComp, ast.GeneratorExp)) and len(sv[0][0].generators) == 1:
+                gen_src = (sv[0][0].generators[0].iter, sv[0][1])
+            elif sv and len(sv) == 1:
+                gen_src = sv[0]
+            tgt = lp.target if lp is not None and isinstance(lp.target, ast.Name) and any(x is c for x in ast.walk(lp.iter)) else None
+            if bad or tgt is None or gen_src is None:
+                continue
+            body = lp.body if isinstance(lp, ast.For) else []
+            for z in [z for s in body for z in ast.walk(s) if isinstance(z, ast.Call) and dotted_name(z.func) == "zip" and len(z.args) == 2 and not z.keywords]:
+                zu = _node_of(g, z)
+                other = [a for a in z.args if not (isinstance(a, ast.Name) and a.id == tgt.id)]
+                if zu is None or len(other) != 1:
+                    continue
+                same = _same_sequence(g, other[0], zu, gen_src[0], gen_src[1])
+                R.check(same, r, rel, qn, "every combination is paired with the names in the order of the factors", f"`{norm(z)[:60]}` pairs the combination with `{ast.unparse(other[0])[:40]}`, which is not the sequence of names the factors were taken in (`{ast.unparse(gen_src[0])[:40]}`): a variable receives the value of another variable", z.lineno)
+    if not seen:
+        raise AnalysisError("no Cartesian product (itertools.product(*factors)) found on the node path (1 confirmed by reading: _iterate_sweep, combinatorial mode)")
+
+
+# ---------------------------------------------------------------------- D22 (round 7)
+# Loading a pipeline must not rewrite its declaration.  A node declaration is a mapping owned by whoever wrote the
+# configuration; the same mapping object can stand for several nodes (YAML anchor / alias: `derive: *sweep`) and is
+# looked at again by every later load (inspect-then-run, a second Pipeline over the same configuration).  The load
+# path copies ONE level (`dict(raw)`, `dict(node_def)`) before it stores into a declaration, so everything below that
+# level - the `derive` block, `parameters`, their sub-mappings - is still the declaration's own object.  Decided by a
+# value flow with "number of levels this load owns": 0 = the declaration's own object, a one-level copy owns one level
+# more than the items it was made from, an item of a container owns one level less than the container, deepcopy /
+# literals / objects made elsewhere are owned entirely.  An in-place store into a level-0 value is the violation.
+_INF = 99
+_IN_PLACE = {"pop", "popitem", "clear", "update", "setdefault", "append", "extend", "insert", "remove", "sort", "reverse", "add", "discard", "__setitem__", "__delitem__"}
+_ONE_LEVEL_COPIES = {"dict", "list", "tuple", "set", "frozenset", "sorted", "OrderedDict", "copy", "copy.copy", "MappingProxyType", "types.MappingProxyType", "ChainMap"}
+_SAME_OBJECT = {"iter", "reversed", "enumerate", "zip", "cast", "typing.cast", "filter", "tuple"}
+_CHILD_CALLS = {"get", "pop", "setdefault", "popitem", "__getitem__"}
+_VIEWS = {"items", "values", "keys"}
+_NEVER_SHARED = {"isinstance", "issubclass", "len", "str", "int", "float", "bool", "type", "hasattr", "repr", "id", "callable", "any", "all", "min", "max", "sum", "range", "print", "format", "hash"}
+
+
+def _child(n: int) -> int:
+    return _INF if n >= _INF else max(n - 1, 0)
+
+
+def _copy1(n: int) -> int:
+    return _INF if n >= _INF else max(n, 1)
+
+
+class _Owned:
+    """Interprocedural (memoised, depth-bounded) search for in-place stores into the declaration's own objects."""
+
+    def __init__(self, repo: Repo):
+        self.repo = repo
+        self.memo: Dict[Tuple[int, Tuple[Tuple[str, int], ...]], int] = {}
+        self.sites: Dict[Tuple[str, str, int], Tuple[ast.AST, ast.AST, Tuple[str, ...]]] = {}
+        self.visited: Dict[Tuple[str, str], int] = {}
+
+    def analyse(self, mod, fn: ast.AST, pl: Dict[str, int], path: Tuple[str, ...]) -> int:
+        key = (id(fn), tuple(sorted(pl.items())))
+        if key in self.memo:
+            return self.memo[key]
+        self.memo[key] = _INF  # recursion: optimistic while in progress
+        if len(path) > 7:
+            return _INF
+        qn = qualname_of(fn)
+        here = path + (f"{mod.rel}:{qn}",)
+        self.repo.consulted.add(mod.rel)
+        fr = _OwnedFrame(self, mod, fn, pl, here)
+        n_sites = 0
+        for st, cont in fr.store_sites:
+            lv = fr.level(cont, st)
+            if lv < _INF:
+                n_sites += 1
+            if lv == 0:
+                self.sites.setdefault((mod.rel, qn, getattr(st, "lineno", 0)), (st, cont, here))
+        self.visited[(mod.rel, qn)] = max(self.visited.get((mod.rel, qn), 0), n_sites)
+        for c in calls_in(fn):
+            fr.call_level(c, c)
+        ret = _INF
+        for n in walk_no_nested(fn):
+            if isinstance(n, ast.Return) and n.value is not None:
+                if isinstance(n.value, ast.Name) and n.value.id in pl and fr.is_leaf_return(n):
+                    continue
+                ret = min(ret, fr.level(n.value, n))
+        self.memo[key] = ret
+        return ret
+
+
+class _OwnedFrame:
+    def __init__(self, flow: _Owned, mod, fn: ast.AST, pl: Dict[str, int], path: Tuple[str, ...]):
+        self.flow, self.mod, self.fn, self.pl, self.path = flow, mod, fn, pl, path
+        self.g = CFG(fn, may_raise=_no_raise)
+        self.params = _fn_params(fn)
+        self.names: Dict[Tuple[str, int], int] = {}
+        self.calls: Dict[int, int] = {}
+        self.cut = 0
+        self.store_sites: List[Tuple[ast.AST, ast.AST]] = []
+        self.into: Dict[str, List[Tuple[ast.AST, ast.AST]]] = {}  # local container -> [(stored value, statement)]
+        for n in walk_no_nested(fn):
+            tgts: List[ast.AST] = list(n.targets) if isinstance(n, (ast.Assign, ast.Delete)) else [n.target] if isinstance(n, (ast.AugAssign, ast.AnnAssign)) else []
+            for t in tgts:
+                for el in (t.elts if isinstance(t, (ast.Tuple, ast.List)) else [t]):
+                    if isinstance(el, ast.Subscript):
+                        self.store_sites.append((n, el.value))
+                        if isinstance(el.value, ast.Name) and isinstance(n, (ast.Assign, ast.AnnAssign)) and n.value is not None:
+                            self.into.setdefault(el.value.id, []).append((n.value, n))
+            if isinstance(n, ast.Call) and isinstance(n.func, ast.Attribute) and n.func.attr in _IN_PLACE:
+                st = stmt_of(n) or n
+                self.store_sites.append((st, n.func.value))
+                if isinstance(n.func.value, ast.Name) and n.func.attr in ("update", "append", "extend", "add", "insert", "setdefault", "__setitem__"):
+                    for a in list(n.args) + [k.value for k in n.keywords]:
+                        self.into.setdefault(n.func.value.id, []).append((a if n.func.attr not in ("update", "extend") else ast.Starred(value=a, ctx=ast.Load()), st))
+
+    # -- helpers
+    def use_of(self, at: ast.AST) -> Optional[int]:
+        return _node_of(self.g, at)
+
+    def is_leaf_return(self, ret: ast.Return) -> bool:
+        """`return <param>` reached only where the parameter was tested not to be a mapping / sequence (the tail of a
+        recursive rebuild): nothing to store into."""
+        ids = self.g.nodes_for(ret)
+        name = ret.value.id
+
+        def atom_for(kinds: Set[str]):
+            def atom(e: ast.AST, _use: int) -> Optional[bool]:
+                if isinstance(e, ast.Call) and dotted_name(e.func) == "isinstance" and len(e.args) == 2 and dotted_name(e.args[0]) == name:
+                    t = e.args[1]
+                    if {(dotted_name(x) or "").split(".")[-1] for x in (t.elts if isinstance(t, ast.Tuple) else [t])} & kinds:
+                        return False
+                return None
+            return atom
+        return bool(ids) and all(_only_through(self.g, atom_for(k), ids)[0] for k in ({"dict", "Mapping", "MutableMapping"}, {"list", "Sequence", "MutableSequence"}))
+
+    def level(self, e: Optional[ast.AST], at: ast.AST, env: Optional[Dict[str, int]] = None, depth: int = 0) -> int:
+        """Number of levels of the value of *e* (evaluated at statement / expression *at*) this load owns."""
+        if depth > 40:
+            self.cut += 1  # too deep: optimistic, and nothing computed on the way back is remembered
+            return _INF
+        if e is None or isinstance(e, (ast.Constant, ast.JoinedStr, ast.Compare, ast.Lambda)):
+            return _INF
+        if isinstance(e, ast.Name):
+            if env and e.id in env:
+                return env[e.id]
+            return self.name_level(e.id, at, depth)
+        if isinstance(e, (ast.NamedExpr, ast.Starred, ast.Await)):
+            return self.level(e.value, at, env, depth + 1)
+        if isinstance(e, ast.IfExp):
+            return min(self.level(e.body, at, env, depth + 1), self.level(e.orelse, at, env, depth + 1))
+        if isinstance(e, ast.BoolOp):
+            return min(self.level(v, at, env, depth + 1) for v in e.values)
+        if isinstance(e, ast.BinOp):
+            return _copy1(min(self.level(e.left, at, env, depth + 1), self.level(e.right, at, env, depth + 1)))
+        if isinstance(e, ast.Attribute):
+            return _child(self.level(e.value, at, env, depth + 1))
+        if isinstance(e, ast.Subscript):
+            base = self.level(e.value, at, env, depth + 1)
+            return _copy1(base) if isinstance(e.slice, ast.Slice) else _child(base)
+        if isinstance(e, (ast.Dict, ast.List, ast.Tuple, ast.Set)):
+            items: List[int] = []
+            if isinstance(e, ast.Dict):
+                for k, v in zip(e.keys, e.values):
+                    lv = self.level(v, at, env, depth + 1)
+                    items.append(_child(lv) if k is None else lv)
+            else:
+                for v in e.elts:
+                    lv = self.level(v, at, env, depth + 1)
+                    items.append(_child(lv) if isinstance(v, ast.Starred) else lv)
+            m = min(items, default=_INF)
+            return _INF if m >= _INF else m + 1
+        if isinstance(e, (ast.ListComp, ast.SetComp, ast.GeneratorExp, ast.DictComp)):
+            env2 = dict(env or {})
+            for gen in e.generators:
+                lv = _child(self.level(gen.iter, at, env2, depth + 1))
+                for x in ast.walk(gen.target):
+                    if isinstance(x, ast.Name):
+                        env2[x.id] = lv
+            m = self.level(e.value if isinstance(e, ast.DictComp) else e.elt, at, env2, depth + 1)
+            return _INF if m >= _INF else m + 1
+        if isinstance(e, ast.Call):
+            return self.call_level(e, at, env, depth + 1)
+        return _INF
+
+    def name_level(self, name: str, at: ast.AST, depth: int) -> int:
+        use = self.use_of(at)
+        if use is None:
+            return self.pl.get(name, _INF)
+        ck = (name, use)
+        if ck in self.names:
+            return self.names[ck]
+        self.names[ck] = _INF
+        cut0 = self.cut
+        defs = reaching_defs(self.g, name, use)
+        out = _INF
+        if name in self.params:
+            if not defs:
+                out = self.pl.get(name, _INF)
+            elif use in self.g.reach([self.g.entry], blocked={n.id for n in self.g.nodes if _defines(n, name)} - {use}):
+                out = self.pl.get(name, _INF)
+        for d in defs:
+            out = min(out, self.def_level(d, name, depth))
+        if out > 0:
+            for v, st in self.into.get(name, []):  # what was stored into it is part of it (flow-insensitive)
+                lv = self.level(v, st, None, depth + 1)
+                lv = _child(lv) if isinstance(v, ast.Starred) else lv
+                out = min(out, _INF if lv >= _INF else lv + 1)
+        if self.cut == cut0:
+            self.names[ck] = out
+        else:
+            del self.names[ck]
+        return out
+
+    def def_level(self, d, name: str, depth: int) -> int:
+        a = d.ast
+        if d.kind == "stmt" and isinstance(a, (ast.Assign, ast.AnnAssign)):
+            v = _assigned_component(a, name)
+            if v is not None:
+                return self.level(v, a, None, depth + 1)
+            return _child(self.level(a.value, a, None, depth + 1)) if a.value is not None else _INF
+        if d.kind == "stmt" and isinstance(a, ast.AugAssign):
+            return _copy1(self.level(a.value, a, None, depth + 1))
+        if d.kind == "for" and isinstance(a, ast.For):
+            return _child(self.level(a.iter, a, None, depth + 1))
+        return _INF
+
+    def call_level(self, c: ast.Call, at: ast.AST, env: Optional[Dict[str, int]] = None, depth: int = 0) -> int:
+        if env is None and id(c) in self.calls:
+            return self.calls[id(c)]
+        cut0 = self.cut
+        out = self._call_level(c, at, env, depth)
+        if env is None and self.cut == cut0:
+            self.calls[id(c)] = out
+        return out
+
+    def _call_level(self, c: ast.Call, at: ast.AST, env: Optional[Dict[str, int]], depth: int) -> int:
+        fn = dotted_name(c.func) or ""
+        attr = c.func.attr if isinstance(c.func, ast.Attribute) else None
+        args = list(c.args) + [k.value for k in c.keywords]
+        if fn.split(".")[-1] in ("deepcopy", "loads", "safe_load", "load") or fn in _NEVER_SHARED:
+            return _INF
+        if attr in _CHILD_CALLS and c.args:
+            got = _child(self.level(c.func.value, at, env, depth + 1))
+            for dflt in c.args[1:]:
+                got = min(got, self.level(dflt, at, env, depth + 1))
+            return got
+        if attr in _VIEWS and not args:
+            return self.level(c.func.value, at, env, depth + 1)
+        if attr == "copy" and not args:
+            return _copy1(self.level(c.func.value, at, env, depth + 1))
+        if fn in _ONE_LEVEL_COPIES or fn.split(".")[-1] in ("OrderedDict", "MappingProxyType"):
+            out = _copy1(min([self.level(a, at, env, depth + 1) for a in c.args], default=_INF))
+            for k in c.keywords:
+                lv = self.level(k.value, at, env, depth + 1)
+                lv = _child(lv) if k.arg is None else lv
+                out = min(out, _INF if lv >= _INF else lv + 1)
+            return out
+        if fn in _SAME_OBJECT:
+            return min([self.level(a, at, env, depth + 1) for a in (c.args[1:] if fn.endswith("cast") else c.args)], default=_INF)
+        if fn == "getattr" and c.args:
+            return _child(self.level(c.args[0], at, env, depth + 1))
+        levels = [self.level(a, at, env, depth + 1) for a in args]
+        recv_level = self.level(c.func.value, at, env, depth + 1) if isinstance(c.func, ast.Attribute) else _INF
+        if min(levels + [recv_level], default=_INF) >= _INF:
+            return _INF
+        out = _INF
+        for tmod, tfn in self.flow.repo.resolve_call(self.mod, c):
+            if not isinstance(tfn, FuncNode):
+                continue
+            is_ctor = tfn.name == "__init__" and attr != "__init__"
+            deco = {dotted_name(d) for d in tfn.decorator_list}
+            if isinstance(parent(tfn), ast.ClassDef) and (is_ctor or "classmethod" in deco):
+                pos = [x.arg for x in list(tfn.args.posonlyargs) + list(tfn.args.args)][1:]  # self / cls is not an argument of the call
+                bound = _call_args(c, tuple(pos) + tuple(x.arg for x in tfn.args.kwonlyargs))
+            else:
+                bound = _callee_binding(tmod, c, tfn)
+            if bound is None:
+                continue
+            pl = {p: self.level(v, at, env, depth + 1) for p, v in bound.items()}
+            pl = {p: lv for p, lv in pl.items() if lv < _INF}
+            if not pl:
+                continue
+            got = self.flow.analyse(tmod, tfn, pl, self.path)
+            out = min(out, _INF if is_ctor else got)
+        return out
+
+
+def _rule_declaration_not_rewritten(repo: Repo, R: Report) -> None:
+    r = R.rule("C01-D22-loading-does-not-rewrite-the-declaration", "loading a pipeline leaves the configuration it was given as it was declared: on the way from the Pipeline constructor / the orchestrator's node instantiation to the node factory, every in-place store (item assignment, del, pop / update / setdefault / append ..) goes into a mapping this load made itself - the load path copies a declaration one level deep, so the nested blocks of a node declaration (`derive`, `parameters`, ..) are still the declaration's own objects, shared by every node that refers to them through a YAML alias and seen again by every later load; a store into one of them makes the second such node (or the second Pipeline over the same configuration) run something else than was declared", 3)
+    flow = _Owned(repo)
+    roots: List[Tuple[object, ast.AST]] = []
+    pmod = repo.module(PIPELINE)
+    for cls in [n for n in pmod.tree.body if isinstance(n, ast.ClassDef)]:
+        init = next((n for n in cls.body if isinstance(n, FuncNode) and n.name == "__init__"), None)
+        if init is not None and any(isinstance(n, FuncNode) and any(call_attr(c) == "execute" for c in calls_in(n)) for n in cls.body):
+            roots.append((pmod, init))
+    omod = repo.module(ORCH)
+    for f in [n for n in ast.walk(omod.tree) if isinstance(n, FuncNode)]:
+        if any(tm.rel == NODEFACT for c in calls_in(f) for tm, _t in repo.resolve_call(omod, c)):
+            roots.append((omod, f))
+    if len(roots) < 2:
+        raise AnalysisError("load path: the Pipeline constructor (class whose methods call <orchestrator>.execute) and the orchestrator function that calls the node factory were not both found")
+    for m, f in roots:
+        a = f.args
+        names = [x.arg for x in list(a.posonlyargs) + list(a.args) + list(a.kwonlyargs)]
+        if isinstance(parent(f), ast.ClassDef) and names:
+            names = names[1:]
+        flow.analyse(m, f, {p: 0 for p in names}, ())
+        R.ok(r, m.rel, qualname_of(f), "entry of the load path: what it is given belongs to the caller (the configuration / the Pipeline's specification)")
+    for (rel, qn, line), (st, cont, path) in sorted(flow.sites.items()):
+        R.violation(r, rel, qn, norm(st)[:90], f"`{ast.unparse(cont)[:40]}` is the declaration's own object here (reached from the configuration without a copy of that level: `dict(x)` copies one level, its items are still shared): the store rewrites the configuration the pipeline was loaded from - a second node that shares the block through a YAML alias, or the next Pipeline built from the same configuration, no longer finds what was declared (e.g. a swept node runs un-swept)", line, list(path))
+    for (rel, qn), n in sorted(flow.visited.items()):
+        if n and not any(k[0] == rel and k[1] == qn for k in flow.sites) and not any(m.rel == rel and qualname_of(f) == qn for m, f in roots):
+            R.ok(r, rel, qn, f"{n} in-place store(s) on values reached from the declaration: all into copies made by this load")
